@@ -268,7 +268,7 @@ def plan(tier, seed):
         add(d - one)
         if tier == "thorough":
             add(d + one)
-    for d in (dates.leap_days() if tier == "thorough" else dates.pick(dates.leap_days(), 4, seed, PROP, "leap")):
+    for d in dates.leap_days():
         add(d, leap=True)
     # stratum constancy: last (and interior) day against the first day
     strata = dates.strata(LO, hi)
